@@ -831,14 +831,14 @@ func oracleC09(s *Scenario, x *vrt.Exec, o *Obs) []vrt.Violation {
 	switch {
 	case ref.ResultErr:
 		if o.Err == nil {
-			out = append(out, viol(s, "delay-changes-result", "output-instead-of-error/"+o.ID, "under a scheduling delay the run returned "+o.ID+" although no output is producible"))
+			out = append(out, viol(s, "delay-changes-result", "output-instead-of-error/"+o.ID+"/"+stallKey, "under a scheduling delay the run returned "+o.ID+" although no output is producible"))
 		}
 	case ref.ResultID == "":
 	default:
 		if o.Err != nil {
-			out = append(out, viol(s, "delay-changes-result", "error-instead-of-"+ref.ResultID+"/"+errClass(o.Err), fmt.Sprintf("under a scheduling delay the run returned error %q instead of output %s", short(o.Err.Error(), 200), ref.ResultID)))
+			out = append(out, viol(s, "delay-changes-result", "error-instead-of-"+ref.ResultID+"/"+errClass(o.Err)+"/"+stallKey, fmt.Sprintf("under a scheduling delay the run returned error %q instead of output %s:%s", short(o.Err.Error(), 200), ref.ResultID, stallText)))
 		} else if o.ID != ref.ResultID || !matchData(ref.ResultData, canon(o.Data)) {
-			out = append(out, viol(s, "delay-changes-result", "other-result/"+o.ID, fmt.Sprintf("under a scheduling delay the run returned %s %s instead of %s %s", o.ID, canonStr(o.Data), ref.ResultID, canonStr(ref.ResultData))))
+			out = append(out, viol(s, "delay-changes-result", "other-result/"+o.ID+"/"+stallKey, fmt.Sprintf("under a scheduling delay the run returned %s %s instead of %s %s:%s", o.ID, canonStr(o.Data), ref.ResultID, canonStr(ref.ResultData), stallText)))
 		}
 	}
 	return out
